@@ -426,11 +426,16 @@ func (gb *gcpBalancer) getSubConnRoundRobin(ctx context.Context) *subConnRef {
 func (gb *gcpBalancer) bindSubConn(bindKey string, sc balancer.SubConn) {
 	gb.mu.Lock()
 	defer gb.mu.Unlock()
+	scRef, found := gb.scRefs[sc]
+	if !found {
+		// The subconn has left the pool (shut down) while the call was in flight.
+		return
+	}
 	_, ok := gb.affinityMap[bindKey]
 	if !ok {
 		gb.affinityMap[bindKey] = sc
 	}
-	gb.scRefs[sc].affinityIncr()
+	scRef.affinityIncr()
 }
 
 // unbindSubConn removes the existing binding associated with the key.
@@ -439,7 +444,10 @@ func (gb *gcpBalancer) unbindSubConn(boundKey string) {
 	defer gb.mu.Unlock()
 	boundSC, ok := gb.affinityMap[boundKey]
 	if ok {
-		gb.scRefs[boundSC].affinityDecr()
+		// The bound subconn may have left the pool (shut down) meanwhile.
+		if scRef, found := gb.scRefs[boundSC]; found {
+			scRef.affinityDecr()
+		}
 		delete(gb.affinityMap, boundKey)
 	}
 }
